@@ -16,6 +16,8 @@ package props
 // the race detector (sub-run "C09R").
 
 import (
+	"time"
+	"encoding/json"
 	"bytes"
 	"fmt"
 	"math/rand"
@@ -39,7 +41,7 @@ func init() {
 
 var txnRejectRe = regexp.MustCompile(`^reject: (v2 )?transaction \d+ is invalid: `)
 
-type snapshot struct{ block, supp, state []byte }
+type snapshot struct{ block, supp, state, net []byte } // net: the network parameters the state points to (shared by every state of the chain)
 
 // encodeBlockFull renders every field of a block including each element's own
 // Merkle proof (the wire form of a v2 block compresses proofs into a multiproof,
@@ -72,7 +74,11 @@ func encodeBlockFull(b types.Block) []byte {
 }
 
 func snap(cs consensus.State, b types.Block, bs consensus.V1BlockSupplement) snapshot {
-	return snapshot{encodeBlockFull(b), chain.Encode(bs), chain.Encode(cs)}
+	var net []byte
+	if cs.Network != nil {
+		net, _ = json.Marshal(*cs.Network)
+	}
+	return snapshot{encodeBlockFull(b), chain.Encode(bs), chain.Encode(cs), net}
 }
 
 func (a snapshot) diff(b snapshot) string {
@@ -83,6 +89,8 @@ func (a snapshot) diff(b snapshot) string {
 		return "supplement"
 	case !bytes.Equal(a.state, b.state):
 		return "state"
+	case !bytes.Equal(a.net, b.net):
+		return "network-parameters"
 	}
 	return ""
 }
@@ -469,7 +477,49 @@ func c09Drive(c *fw.Ctx, nChains, blocks, workers int, withMutants bool) {
 	}
 }
 
+// c09GenesisNetworkProbe: applying a genesis block must not write into the Network the state points to — the
+// pointer is shared by every state and chain built from that Network (here: a network whose Oak genesis
+// timestamp is left unset, and one with every field set).
+func c09GenesisNetworkProbe(c *fw.Ctx) {
+	res := c.Res
+	for i := 0; i < c.Budget(6, 40); i++ {
+		s := chain.NewSim(rand.New(rand.NewSource(c.Seed*9100019+int64(i))), ledgerModes[i%len(ledgerModes)])
+		for _, unset := range []bool{true, false} {
+			n := *s.Net
+			if unset {
+				n.HardforkOak.GenesisTimestamp = time.Time{}
+			}
+			before, _ := json.Marshal(n)
+			gs := n.GenesisState()
+			bs := consensus.V1BlockSupplement{Transactions: make([]consensus.V1TransactionSupplement, len(s.Genesis.Transactions))}
+			p, _ := fw.Recover(func() {
+				cs1, _ := consensus.ApplyBlock(gs, s.Genesis, bs, time.Time{})
+				g2 := s.Genesis
+				g2.Timestamp = g2.Timestamp.Add(1000 * time.Hour)
+				consensus.ApplyBlock(gs, g2, bs, time.Time{})
+				// the first application again: same inputs, same result
+				cs3, _ := consensus.ApplyBlock(gs, s.Genesis, bs, time.Time{})
+				if !bytes.Equal(chain.Encode(cs1), chain.Encode(cs3)) {
+					res.Violate(fw.Violation{Key: "c09-nondeterministic:apply-genesis", What: "applying the same genesis block to the same state twice (with another genesis applied in between) gives different states", Replay: map[string]any{"seed": c.Seed, "i": i, "oak_genesis_timestamp_unset": unset}})
+				}
+			})
+			res.Eval(fmt.Sprintf("genesis-network/%d/%v", i, unset), true)
+			res.Count("genesis-network-probe")
+			if p {
+				res.Count("genesis-network-probe:panic")
+				continue
+			}
+			after, _ := json.Marshal(n)
+			if !bytes.Equal(before, after) {
+				res.Violate(fw.Violation{Key: "c09-input-mutated:apply:network-parameters", What: "ApplyBlock of a genesis block modified the Network its input state points to", Replay: map[string]any{"seed": c.Seed, "i": i, "oak_genesis_timestamp_unset": unset},
+					Expected: string(before[:min(len(before), 300)]), Observed: string(after[:min(len(after), 300)])})
+			}
+		}
+	}
+}
+
 func runC09(c *fw.Ctx) {
+	defer c09GenesisNetworkProbe(c)
 	c.Res.Rule = "random valid blocks (all modes/eras) and their double-use / structure mutants: deep snapshots of block, supplement, state and tracked proofs before/after ValidateBlock, ApplyBlock, RevertBlock and the step-by-step path; repeated calls; decode(encode(b)) copies through the multiproof form; 8 concurrent callers per valid block (also re-run under the race detector); step-by-step verdict == block verdict; Copy()/DeepCopy() independence by mutating every slice reachable in the copy. Non-trivial = block with transactions or any mutant."
 	c09Drive(c, c.Budget(16, 600), c.Budget(30, 60), 8, true)
 	// Share/Move/Copy scripts on real StateElements against the Lean aliasing model
